@@ -39,6 +39,10 @@ func isAutoAssertStmt(stmt js.Stmt) bool {
 	return false
 }
 
+func breakIfNotStmt(cond js.Expr) js.Stmt {
+	panic("todo breakIfNotStmt")
+}
+
 // TypeAssert func
 func (p *CodeBuilder) TypeAssert(typ types.Type, lhs int, src ...ast.Node) *CodeBuilder {
 	panic("todo TypeAssert")
